@@ -13,7 +13,7 @@ PROPERTY = "C03"
 LEVEL = "exploration"
 NEED_EXT = True
 REQUIRED = ["refit.outputs", "refit.state", "same_seed.outputs", "global_seed_independence",
-            "refit.after_set_params", "refit.after_failed_fit", "refit.frames", "two_instances"]
+            "refit.after_set_params", "refit.after_failed_fit", "refit.frames", "two_instances", "hashseed.two_processes"]
 RULE = ("fittable registered classes (23) x configurations x training-set pairs (A, B) differing in n, d, label set / "
         "vocabulary / categorical columns x {fit A, [query], fit B, fit A} x 3 seeds (thorough 12); thread-parallel "
         "configurations included; non-trivial = A and B differ in shape or label set; distinct = distinct (class, "
@@ -37,7 +37,42 @@ def cases(tier, seed):
     for name in FITTABLE:
         for k in range(nseeds):
             out.append({"gen": "refit", "id": "refit-%s-%d" % (name, k), "cls": name, "sub": seed * 1009 + k})
+    # the same seeded fit in two fresh processes that differ only in PYTHONHASHSEED
+    for name in FITTABLE:
+        if name not in ("PredictableTSNE",):
+            out.append({"gen": "hashseed", "id": "hashseed-%s" % name, "cls": name, "sub": seed * 1009})
     return out
+
+
+def run_hashseed(case, ctx):
+    import json
+    import os
+    import subprocess
+    import sys
+    res = []
+    for hs in ("1", "4242"):
+        env = dict(os.environ, PYTHONHASHSEED=hs)
+        try:
+            p = subprocess.run([sys.executable, "-m", "vrt.hashseed_probe", case["cls"], str(case["sub"])],
+                               cwd=os.path.dirname(os.path.dirname(os.path.dirname(os.path.abspath(__file__)))),
+                               env=env, stdout=subprocess.PIPE, stderr=subprocess.PIPE, text=True, timeout=240)
+        except subprocess.TimeoutExpired:
+            ctx.excluded("hashseed probe timed out")
+            return
+        line = [l for l in p.stdout.splitlines() if l.startswith("HASHSEED-PROBE ")]
+        if not line:
+            ctx.excluded("hashseed probe failed: %s" % p.stderr[-200:].replace("\n", " | "))
+            return
+        res.append(json.loads(line[0][len("HASHSEED-PROBE "):]))
+    ctx.hit("hashseed.two_processes")
+    a, b = res
+    bad = sorted(k for k in a if a[k] != b.get(k))
+    if bad:
+        ctx.violation("C03/%s/same-seed/outputs-differ/across-PYTHONHASHSEED" % case["cls"],
+                      "the same data, parameters and numpy.random.seed give another model in a process started with "
+                      "another PYTHONHASHSEED (variant/data %s): the fit depends on the iteration order of a set or "
+                      "dict" % ", ".join(bad[:4]), cfg={"class": case["cls"], "differs": bad[:6]})
+    ctx.cls("class=" + case["cls"])
 
 
 def state(obj, depth=0):
@@ -121,6 +156,8 @@ def exact(a, b):
 
 
 def run_case(case, ctx):
+    if case.get("gen") == "hashseed":
+        return run_hashseed(case, ctx)
     from vrt import registry
     spec = registry.get(case["cls"])
     K = "C03/%s/" % spec.name
